@@ -398,6 +398,17 @@ func c14Globals(p *Program, r *Report) {
 						if bi, ok := x.Call.Value.(*ssa.Builtin); ok && bi.Name() == "delete" {
 							g = globalOf(x.Call.Args[0])
 							what = "delete"
+						} else if !isInit(fn) {
+							// the address of a package-level variable handed to a call: a container with methods (sync.Map,
+							// sync.Pool, a cache type) kept at package level is state shared by all runs, whatever its methods do
+							for _, a := range x.Call.Args {
+								if ga, ok := a.(*ssa.Global); ok {
+									if _, isStruct := derefType(ga.Type()).Underlying().(*types.Struct); isStruct {
+										g = ga
+										what = "call of " + calleeName(x) + " on"
+									}
+								}
+							}
 						}
 					}
 					if g == nil || g.Pkg == nil || !inScope[g.Pkg] {
